@@ -6,6 +6,7 @@ import (
 	"fmt"
 	"io"
 	"math/big"
+	"os"
 	"sort"
 	"strings"
 	"sync"
@@ -18,6 +19,7 @@ import (
 	"github.com/dominant-strategies/go-quai/crypto"
 	"github.com/dominant-strategies/go-quai/ethdb"
 	"github.com/dominant-strategies/go-quai/ethdb/memorydb"
+	"github.com/dominant-strategies/go-quai/ethdb/pebble"
 	"github.com/dominant-strategies/go-quai/log"
 	"github.com/sirupsen/logrus"
 )
@@ -248,9 +250,51 @@ type locStore struct {
 
 func (s *locStore) Location() common.Location { return s.loc }
 
-// NewKV returns a fresh in-memory database that reports Location {0,0}.
+// DiskEvery, when n > 0, makes every n-th store returned by NewKV a pebble database in a
+// temporary directory instead of the in-memory store (the production node runs on pebble, and
+// the block batch's read-your-own-writes view is implemented per backend). The directories of
+// all but the most recent few stores are closed and removed as new ones are made.
+var DiskEvery int
+
+var (
+	kvCount  int
+	diskOpen []diskKV
+)
+
+type diskKV struct {
+	db  ethdb.Database
+	dir string
+}
+
+// NewKV returns a fresh database that reports Location {0,0}: in memory, or (see DiskEvery) pebble.
 func NewKV() ethdb.Database {
+	kvCount++
+	if DiskEvery > 0 && kvCount%DiskEvery == 0 {
+		for len(diskOpen) >= 6 {
+			diskOpen[0].db.Close()
+			os.RemoveAll(diskOpen[0].dir)
+			diskOpen = diskOpen[1:]
+		}
+		dir, err := os.MkdirTemp("", "evmgen-pebble")
+		if err == nil {
+			if d, err := pebble.New(dir, 16, 16, "", false, Logger, Loc); err == nil {
+				db := rawdb.NewDatabase(d)
+				diskOpen = append(diskOpen, diskKV{db, dir})
+				return db
+			}
+			os.RemoveAll(dir)
+		}
+	}
 	return rawdb.NewDatabase(&locStore{memorydb.New(Logger), Loc})
+}
+
+// CloseDiskKVs closes and removes every pebble store NewKV still holds (end of a test).
+func CloseDiskKVs() {
+	for _, d := range diskOpen {
+		d.db.Close()
+		os.RemoveAll(d.dir)
+	}
+	diskOpen = nil
 }
 
 // World is a built pre-state: the key-value store, the state database over it, and the block
